@@ -404,6 +404,12 @@ class Interp(ExprMixin):
                     return self.call_internal(v[1], args, kwargs, st, node)
                 if v[0] == 'closure':
                     return self.call_closure(v[1], args, kwargs, st, node)
+                if v[0] == 'partial':
+                    # functools.partial(f, *a, **k)(*b, **m) is f(*a, *b, **{**k, **m})
+                    _, inner, pargs, pkw = v
+                    kw2 = dict(pkw)
+                    kw2.update(kwargs)
+                    return self.call_value(inner, list(pargs) + list(args), kw2, st, node)
         STATS['calls_unresolved'] += 1
         self.log(st, 'call', node, callee='?', bound={}, fn=callee, args=args, kwargs=kwargs)
         return app('callv', P(callee), *[a if isinstance(a, (Poly, Tup)) else P(a) for a in args], **kwargs)
